@@ -84,6 +84,8 @@ type mSub struct {
 	writes []*mReq
 	// sequence numbers around the subscribe / bind calls of the client application
 	callFrom, callTo uint64
+	// checked: a removal has been evaluated against this call; overlapped: the call overlapped it
+	checked, overlapped bool
 }
 
 type mLink struct {
@@ -623,7 +625,13 @@ func mTeardownCheck(w *World, l *mLink) {
 			// recorded its entry): undecided, as for requests in flight (DESIGN 10.4)
 			overlapped := false
 			for _, sub := range s.subs {
-				if sub.cli == cli && (sub.callTo == 0 || (sub.callTo >= s.In.RemoveBeganAt && sub.callFrom <= s.In.RemovedAt)) {
+				if !sub.checked && (sub.callTo == 0 || (sub.callTo >= s.In.RemoveBeganAt && sub.callFrom <= s.In.RemovedAt)) {
+					sub.overlapped = true
+				}
+				sub.checked = true
+				// (an entry left behind that way stays: a later removal of a connection whose device
+				// address is not known yet cannot find it)
+				if sub.cli == cli && sub.overlapped {
 					overlapped = true
 				}
 			}
